@@ -7,6 +7,7 @@ package main
 import (
 	"fmt"
 	"sort"
+	"strconv"
 	"strings"
 )
 
@@ -433,4 +434,13 @@ func sortedKeys[V any](m map[string]V) []string {
 	}
 	sort.Strings(ks)
 	return ks
+}
+
+// intLitVal: the value of a non-negative integer literal term.
+func intLitVal(t Term) (int64, bool) {
+	if t.Sort != SInt {
+		return 0, false
+	}
+	n, err := strconv.ParseInt(t.S, 10, 64)
+	return n, err == nil
 }
